@@ -49,6 +49,7 @@ struct SeqStats {
     cap_frontier: bool,
     upto_accrual: bool,
     close_bank_ok: u64,
+    disabled_probed: u64,
     close_bank_ok_after_activity: u64,
     max_share_value: f64,
 }
@@ -82,6 +83,17 @@ fn run_case(target: Target, spec: &WorldSpec, ops: &[Op], stats: &mut SeqStats, 
         findings.extend(c02_step(&mut m.c02, &pre, &post, &step));
         findings.extend(c16_step(&mut m.c16, &pre, &post, &step, &r.w));
         findings.extend(c17_step(&mut m.c17, &pre, &post, &step, &r.w));
+        // an account that has just become disabled (bankrupt / migrated) is probed at once: it must not be able to
+        // deposit, withdraw, borrow, repay or open a flash loan
+        for (k, a1) in &post.accts {
+            let was = pre.accts.get(k).map(|a0| a0.flags & marginfi_type_crate::types::ACCOUNT_DISABLED != 0).unwrap_or(false);
+            if a1.flags & marginfi_type_crate::types::ACCOUNT_DISABLED != 0 && !was {
+                stats.disabled_probed += 1;
+                for name in r.probe_disabled_account(k) {
+                    findings.push(Finding { sig: "structure:disabled-acted".into(), msg: format!("op#{}: right after account {k} was disabled, its authority's {name} was accepted", step.index) });
+                }
+            }
+        }
         let (f3, nt3) = c03_step(&mut m.c03, &pre, &post, &step, &r.w);
         findings.extend(f3);
         if nt3 {
@@ -218,6 +230,7 @@ pub fn run_target(ctx: &Ctx, target: Target) -> Report {
                 rep.set_max("max_integration_positions_in_one_account", stats.max_integration as f64);
                 rep.set_max("max_share_value_reached", stats.max_share_value);
                 rep.add_extra("close_bank_accepted", stats.close_bank_ok);
+                rep.add_extra("disabled_accounts_probed", stats.disabled_probed);
                 rep.add_extra("close_bank_accepted_after_activity", stats.close_bank_ok_after_activity);
                 if stats.max_share_value >= 1.0e4 {
                     rep.label("share-value>=1e4");
